@@ -435,7 +435,7 @@ namespace sim
 
         struct Agg
         {
-            long evals = 0, inconclusive = 0, nontrivialCases = 0;
+            long evals = 0, inconclusive = 0, nontrivialCases = 0, recycles = 0;
             std::set<uint64_t> sigs;  // distinct non-trivial signatures
             std::set<uint64_t> inter;
             std::map<std::string, long> faults, probes, sigNames;
@@ -525,9 +525,17 @@ namespace sim
             Batch batch;
             double lastFlush = nowWall();
             int sampled = 0;
-            long violSent = 0;
+            long violSent = 0, handled = 0;
+            bool recycle = false;
             for (;;)
             {
+                // a worker that runs cases in-process is replaced by a fresh one every 8000 cases: what a case leaves behind
+                // in the process (library leaks under detect_leaks=0, allocator quarantine) must not pile up over a long search
+                if (!e.forkPerCase() && handled++ >= 8000)
+                {
+                    recycle = true;
+                    break;
+                }
                 if (sh->stop.load())
                     break;
                 if (nowWall() > deadline)
@@ -584,13 +592,13 @@ namespace sim
                 }
             }
             writeAll(fd, batch.flush());
-            writeAll(fd, "{\"t\":\"done\"}\n");
+            writeAll(fd, recycle ? "{\"t\":\"recycle\"}\n" : "{\"t\":\"done\"}\n");
             close(fd);
             fflush(stdout);
             _exit(0);
         }
 
-        void mergeMsg(Agg &agg, const Json &m, bool *done)
+        void mergeMsg(Agg &agg, const Json &m, bool *done, bool *recycle = nullptr)
         {
             std::string t = m.gets("t");
             if (t == "batch")
@@ -628,6 +636,13 @@ namespace sim
             }
             else if (t == "done")
                 *done = true;
+            else if (t == "recycle")
+            {
+                *done = true;
+                agg.recycles++;
+                if (recycle)
+                    *recycle = true;
+            }
         }
 
         // ---- known findings -----------------------------------------------------------------------
@@ -1001,7 +1016,7 @@ namespace sim
             pid_t pid = -1;
             int fd = -1;
             std::string buf;
-            bool done = false;
+            bool done = false, recycle = false;
         };
         std::vector<W> ws((size_t)o.jobs);
         Agg agg;
@@ -1043,11 +1058,13 @@ namespace sim
             ws[(size_t)w].fd = pfd[0];
             ws[(size_t)w].buf.clear();
             ws[(size_t)w].done = false;
+            ws[(size_t)w].recycle = false;
         };
         for (int w = 0; w < o.jobs; w++)
             spawn(w);
         int live = o.jobs;
         int respawns = 0;
+        std::map<long, int> crashStatus;
         while (live > 0)
         {
             std::vector<pollfd> pf;
@@ -1091,7 +1108,7 @@ namespace sim
                     {
                         try
                         {
-                            mergeMsg(agg, Json::parse(w.buf.substr(pos, e2 - pos)), &w.done);
+                            mergeMsg(agg, Json::parse(w.buf.substr(pos, e2 - pos)), &w.done, &w.recycle);
                         }
                         catch (std::exception &ex)
                         {
@@ -1109,12 +1126,21 @@ namespace sim
                     while (waitpid(w.pid, &st, 0) < 0 && errno == EINTR)
                     {
                     }
+                    if (w.done && w.recycle && nowWall() < deadline && !sh->stop.load())
+                    {
+                        // planned replacement of an in-process worker (see workerMain)
+                        spawn(idx[k]);
+                        continue;
+                    }
                     if (!w.done)
                     {
                         // the worker died inside an in-process case: remember it, classify it in isolation below
                         long ci = sh->cur[(size_t)idx[k]].load();
                         if (ci >= 0)
+                        {
                             crashed.push_back(ci);
+                            crashStatus[ci] = st;
+                        }
                         sh->cur[(size_t)idx[k]].store(-1);
                         if (respawns++ < 100000 && nowWall() < deadline)
                         {
@@ -1145,11 +1171,22 @@ namespace sim
             Json plan = e.generate(o, cs, ci);
             CaseResult r = runIsolated(plan, 201);
             agg.evals++;
+            if (r.vclass.empty())
+            {
+                // the case does not fail on its own: the death of the worker says nothing about this plan (memory pressure,
+                // a kill from outside, something an earlier case left in the process). A verdict must be a function of the
+                // plan, so this is counted, with the wait status, and not judged.
+                int stw = crashStatus.count(ci) ? crashStatus[ci] : 0;
+                agg.inconclusive++;
+                agg.probes[WIFSIGNALED(stw) ? fmt("worker-died-not-reproducible-in-isolation(signal-%d)", WTERMSIG(stw))
+                                            : fmt("worker-died-not-reproducible-in-isolation(exit-%d)", WEXITSTATUS(stw))]++;
+                continue;
+            }
             Violation v;
             v.index = ci;
             v.seed = cs;
             v.plan = plan;
-            v.vclass = r.vclass.empty() ? o.prop + ".crash worker-died-not-reproducible-in-isolation" : r.vclass;
+            v.vclass = r.vclass;
             v.detail = r.detail;
             v.trace = r.trace;
             agg.violCount[v.vclass]++;
@@ -1330,6 +1367,7 @@ namespace sim
         res["violations"] = violJ;
         res["known_findings_hit"] = knownJ;
         res["worker_respawns"] = Json(respawns);
+        res["worker_recycles"] = Json(agg.recycles);
         res["unclassified_crashes"] = Json(unclassifiedCrashes);
         res["exit_code"] = Json(exitCode);
         std::vector<std::string> zeroProbes;
